@@ -43,6 +43,9 @@ type ReaderSpec struct {
 	FailAt   int64  `json:"failAt"`   // byte offset at which the source fails (-1: never)
 	FailKind string `json:"failKind"` // eof | custom | partial | unexpected
 	DelayUs  int    `json:"delayUs"`  // random sleep (0..DelayUs) inside Read, after the bytes are taken
+	Splits   []int  `json:"splits"`   // policy "script": k-th Read returns Splits[k]/SplitC of a sample (TLC-simulated short reads)
+	SplitC   int    `json:"splitC"`
+	SampleB  int    `json:"sampleB"`
 }
 
 type ItemPlan struct {
@@ -64,7 +67,8 @@ type WJob struct {
 	RoundDelayUs int        `json:"roundDelayUs"`
 	LogReads     bool       `json:"logReads"`
 	NoMatrix     bool       `json:"noMatrix"`
-	Gate         string     `json:"gate"` // "" | barrier | straggler : schedule control inside the stub runners
+	Gate         string     `json:"gate"` // "" | barrier | straggler | order : schedule control inside the stub runners
+	Order        []int      `json:"order"` // gate "order": completion order of the samples (from a TLC-simulated behaviour)
 	MustReject   bool       `json:"mustreject"`
 	Tag          string     `json:"tag"`
 }
@@ -235,6 +239,17 @@ func (r *obsReader) Read(p []byte) (int, error) {
 		if n > 1 {
 			n = (n + 1) / 2
 		}
+	case "script":
+		if len(r.rs.Splits) > 0 && r.rs.SplitC > 0 && r.rs.SampleB > 0 {
+			k := r.rs.Splits[(r.reads-1)%len(r.rs.Splits)]
+			m := r.rs.SampleB * k / r.rs.SplitC
+			if m < 1 {
+				m = 1
+			}
+			if m < n {
+				n = m
+			}
+		}
 	case "straddle": // bufio-like: deliver up to Size bytes aligned to multiples of Size of the stream offset
 		if r.rs.Size > 0 {
 			room := int(int64(r.rs.Size) - r.off%int64(r.rs.Size))
@@ -315,6 +330,8 @@ type gateState struct {
 	released int   // barrier generation
 	done     int   // samples whose round has completed
 	first    int64 // start offset of the straggler's sample (-1: none yet)
+	doneSet  map[int]bool
+	timeouts int
 }
 
 type stubCtx struct {
@@ -426,7 +443,10 @@ func stubRunner(item int) randomness.TestFunc {
 				smp = -1
 			}
 			if c.gate != nil {
-				c.gate.finished()
+				if c.job.Gate == "order" {
+					c.gate.awaitTurn(c, smp)
+				}
+				c.gate.finishedSample(smp)
 			}
 		}
 		if smp < 0 {
@@ -494,11 +514,49 @@ func (g *gateState) timedWait(d time.Duration) {
 	t.Stop()
 }
 
-func (g *gateState) finished() {
+func (g *gateState) finishedSample(smp int) {
 	g.mu.Lock()
 	g.done++
+	if g.doneSet != nil {
+		g.doneSet[smp] = true
+	}
 	g.cond.Broadcast()
 	g.mu.Unlock()
+}
+
+// awaitTurn holds the worker at the end of its round until every sample that completes earlier in the
+// TLC-simulated behaviour has completed; a schedule the code cannot follow times out and is only counted
+func (g *gateState) awaitTurn(c *stubCtx, smp int) {
+	g.mu.Lock()
+	defer g.mu.Unlock()
+	pos := -1
+	for i, v := range c.job.Order {
+		if v == smp {
+			pos = i
+			break
+		}
+	}
+	if pos < 0 {
+		return
+	}
+	deadline := time.Now().Add(400 * time.Millisecond)
+	for {
+		ok := true
+		for q := 0; q < pos; q++ {
+			if !g.doneSet[c.job.Order[q]] {
+				ok = false
+				break
+			}
+		}
+		if ok {
+			return
+		}
+		if !time.Now().Before(deadline) {
+			g.timeouts++
+			return
+		}
+		g.timedWait(10 * time.Millisecond)
+	}
 }
 
 func installStubs() {
@@ -553,7 +611,7 @@ func runWorkflowJob(j *WJob) map[string]interface{} {
 		installStubs()
 		ctx = &stubCtx{job: j, info: info, rec: rec, plan: buildPlan(j, info), drng: rand.New(rand.NewSource(j.PlanSeed + 3)), active: true}
 		if j.Gate != "" {
-			ctx.gate = &gateState{first: -1}
+			ctx.gate = &gateState{first: -1, doneSet: map[int]bool{}}
 			ctx.gate.cond = sync.NewCond(&ctx.gate.mu)
 		}
 		curMu.Lock()
@@ -673,6 +731,11 @@ waitLoop:
 	}
 	if ctx != nil {
 		ctx.active = false
+		if ctx.gate != nil {
+			ctx.gate.mu.Lock()
+			res["gate_timeouts"] = ctx.gate.timeouts
+			ctx.gate.mu.Unlock()
+		}
 	}
 	rd.mu.Lock()
 	res["reads"] = rd.reads
